@@ -18,7 +18,21 @@ fn gen_themed(src: &mut Src, tier: Tier) -> Case {
     let mut cfg = GenCfg::full(fl, alpha.clone());
     cfg.max_depth = 3;
     let a = |src: &mut Src, cfg: &GenCfg| Node::Lit(gen_char(src, cfg));
-    let node = match src.below(10) {
+    let node = match src.below(11) {
+        10 => {
+            // counted single-character loops with counts the optimizer does not unroll (> 5), greedy and lazy
+            let c = gen_char(src, &cfg);
+            let min = src.range(4, 8);
+            let max = if src.chance(1, 4) { None } else { Some(min + src.below(4)) };
+            let body = match src.below(3) {
+                0 => Node::Lit(c),
+                1 => Node::Dot,
+                _ => Node::Class { neg: false, items: vec![ClassItem::Ch(c), ClassItem::Ch(gen_char(src, &cfg))] },
+            };
+            let q = Node::Quant { body: Box::new(body), min, max, lazy: src.chance(1, 2), braces: true };
+            let q = if src.chance(1, 3) { Node::Group { name: None, body: Box::new(q) } } else { q };
+            Node::Cat(vec![q, gen_node(src, &cfg, 3)])
+        }
         8 => {
             // lookbehind holding a long literal (crosses the 16-byte chunk limit) or an icase string set,
             // with a nested lookaround somewhere inside it
@@ -90,7 +104,19 @@ fn gen_themed(src: &mut Src, tier: Tier) -> Case {
     uniquify_names(&mut node, &mut c);
     let pat = Printer::print(&node, fl.mode);
     let maxlen = if tier == Tier::Quick { 8 } else { 12 };
-    let hay = if src.chance(1, 2) { witness_hay(src, &node, fl, &alpha, 2) } else { gen_hay(src, &alpha, maxlen) };
+    let hay = match src.below(4) {
+        0 | 1 => witness_hay(src, &node, fl, &alpha, 2),
+        2 => {
+            // a long run of one character (longer than any finite count), then a little noise
+            let c = *src.pick(&alpha);
+            let mut v: Vec<u32> = (0..src.range(5, 14)).map(|_| c).collect();
+            for _ in 0..src.below(4) {
+                v.push(*src.pick(&alpha));
+            }
+            cps_to_string(&v)
+        }
+        _ => gen_hay(src, &alpha, maxlen),
+    };
     let start = gen_start(src, &hay);
     Case { pat, flags: fl.text(), hay, hay16: vec![], start, x: serde_json::Value::Null }
 }
